@@ -1,5 +1,5 @@
 # Wording of MANIFEST.json per property.
-HOOK_COMMITS = ['7bf3a7c', 'e0ec659', '7eca066', '5972264', '8be5f35', '681a228']
+HOOK_COMMITS = ['7bf3a7c', 'e0ec659', '7eca066', '5972264', '8be5f35', '681a228', '7d71785']
 NOT_YET = {}
 TEXT = {
  'C19': dict(
